@@ -130,6 +130,96 @@ theorem C10_no_code (s : List Char) (q : Q) (h : safeEval s = .ok q) :
     · rename_i cls hl
       exact ⟨c, cls, hc, hl, h⟩
 
+/-! ## texts `__str__` prints that are not Python: numpy-style lists -/
+
+/-- **blank-separated lists.**  `GetArg` reads every list in the form `str(numpy.ndarray)`
+    prints for an array-valued option — any number of items, any number (≥ 1) of blanks between
+    two items, any padding after `[` and before `]`, integers, floats, `2.` with no fraction
+    digits, exponents — as the list of its numbers.  The blank IS the separator: the items are
+    the maximal blank-free runs. -/
+theorem C10_getarg_numpy_list (pre : Nat) (ns : List (NumLit × Nat))
+    (h : (Lit.blist pre ns).rd = true) :
+    getArg (Lit.blist pre ns).text = .list (ns.map fun p => p.1.num) :=
+  getArg_blist pre ns h
+
+/-- **the call with the denoted values, for every readable argument list** — the grammar of
+    `C10_parse_eq_python` plus what is not Python syntax but is printed by `__str__` or accepted
+    by `int()`: numpy-style lists anywhere (positional or keyword), leading zeros.  Same verdicts. -/
+theorem C10_parse_denoted (name : String) (as : List Arg) (hname : isIdent name = true)
+    (hrd : ∀ a ∈ as, a.rd = true) : parseCall (render name as) = pyCall name as := by
+  rw [parseCall_render name as hname hrd]
+  unfold pyCall
+  cases h : argPosAfterKw as
+  · by_cases hk : (argKeys as).Nodup
+    · simp only [Bool.false_eq_true, if_false, hk, if_true]
+      rw [itemKwargs_render as hrd [] (by simpa [Env.keys] using hk)]
+      rfl
+    · simp only [Bool.false_eq_true, if_false, hk]
+  · rfl
+
+/-! ## overrides and histories: `safe_eval(text, table, *params, **kwparams)` -/
+
+/-- without overrides `safe_eval` is the plain reading of the text -/
+theorem C10_overrides_none (s : List Char) : parseCallWith s [] [] = parseCall s := by
+  unfold parseCallWith
+  cases h : parseCall s with
+  | error e => rfl
+  | ok c =>
+    have hc : c.called = false → c.args = [] ∧ c.kwargs = [] := by
+      intro hcalled
+      unfold parseCall at h
+      split at h
+      · split at h
+        · cases h
+        · simp only [Except.ok.injEq] at h; subst h; cases hcalled
+      · simp only [Except.ok.injEq] at h; subst h; exact ⟨rfl, rfl⟩
+      · simp only [Except.ok.injEq] at h; subst h; exact ⟨rfl, rfl⟩
+    obtain ⟨n, a, k, cd⟩ := c
+    cases cd with
+    | true => simp [overrideKw]
+    | false =>
+      obtain ⟨ha, hk⟩ := hc rfl
+      simp only at ha hk
+      subst ha; subst hk
+      rfl
+
+/-- **what the overrides do, and nothing else**: the positional arguments of the text stay in
+    front, in order; a keyword reads the LAST override given for it, otherwise the value of the
+    text; the name is the text's.  (No other argument appears: a keyword that is neither in the
+    text nor among the overrides is absent.) -/
+theorem C10_overrides_merge (s : List Char) (params : List PyVal) (kw : Env) (c : Call)
+    (h : parseCall s = .ok c) :
+    ∃ c', parseCallWith s params kw = .ok c' ∧ c'.name = c.name ∧ c'.args = c.args ++ params ∧
+      ∀ k, c'.kwargs.lookup k = match kw.reverse.lookup k with
+        | some v => some v
+        | none => c.kwargs.lookup k := by
+  unfold parseCallWith
+  rw [h]
+  exact ⟨_, rfl, rfl, rfl, fun k => lookup_overrideKw c.kwargs kw k⟩
+
+/-- **the specification of a history is pointwise**: in a process that answers the requests
+    `pre`, then `r`, then `post`, the answer to `r` is the answer `r` gets on its own — whatever
+    texts were parsed before, with whatever overrides, under whatever names.  (The model has no
+    state; an implementation that memoises `GetParams` and hands out the cached containers, so
+    that an override or a caller's mutation leaks into a later parse of the same argument text,
+    is outside it, and the tie replays histories against this statement.) -/
+theorem C10_session_pointwise (pre post : List Request) (r : Request) :
+    (runSession (pre ++ r :: post))[pre.length]? = some (answer r) ∧
+    runSession (pre ++ r :: post) = runSession pre ++ answer r :: runSession post := by
+  constructor
+  · simp [runSession]
+  · simp [runSession]
+
+/-- the leak of seed C10-5 stated on the model: after
+    `safe_eval("quantized_bits(4,0,1)", table, keep_negative=False)` the text still reads without
+    the keyword, under its own and under any other name -/
+theorem C10_session_witness :
+    runSession [⟨"quantized_bits(4,0,1)".toList, [], [("keep_negative", .bool false)]⟩,
+                ⟨"quantized_bits(4,0,1)".toList, [], []⟩, ⟨"quantized_relu(4,0,1)".toList, [], []⟩]
+      = [.ok ⟨"quantized_bits", [.int 4, .int 0, .int 1], [("keep_negative", .bool false)], true⟩,
+         .ok ⟨"quantized_bits", [.int 4, .int 0, .int 1], [], true⟩,
+         .ok ⟨"quantized_relu", [.int 4, .int 0, .int 1], [], true⟩] := by decide +kernel
+
 /-! ## where safe_eval is still NOT Python (outside the grammar) -/
 
 /-- the blank-separated list of the unrepaired parser is still understood (not Python syntax) -/
@@ -663,6 +753,52 @@ theorem C10_str_counterexample_falsy_alpha :
     completeHyps .quantized_linear [] [("alpha", .float 0)] = true := by
   decide +kernel
 
+/-! ### found in the second strengthening round: list-valued axes lose the whole call (recorded) -/
+
+/-- `BaseQuantizer` is a `tf.Module`: a Python list assigned to an attribute is wrapped for
+    tracking, and `str(self.scale_axis).replace(" ", "")` of the wrapper is
+    `ListWrapper([0,1])`.  The printed call then has a second "(" and `safe_eval` silently drops
+    EVERY argument (`C10_parse_counterexample_second_paren`): the rebuilt quantizer is the default
+    `quantized_bits(8,0,0)`.  Same for `elements_per_scale`, for `quantized_linear` and
+    `quantized_hswish`.  `binary` prints its lists item by item and round-trips. -/
+theorem C10_str_counterexample_tracked_list :
+    (let r := strTrip .quantized_bits
+        [("bits", .int 4), ("alpha", .str "auto"), ("scale_axis", .list [.int 0, .int 1])]
+     text r = some "quantized_bits(4,0,1,alpha='auto',scale_axis=ListWrapper([0,1]))" ∧
+       slot r "bits" = some (.int 8) ∧ slot r "alpha" = some .none ∧
+       slot r "scale_axis" = some .none) ∧
+    (let r := strTrip .quantized_linear
+        [("bits", .int 4), ("alpha", .str "auto"), ("scale_axis", .list [.int 0, .int 1])]
+     text r = some "quantized_linear(4,0,1,alpha='auto',scale_axis=ListWrapper([0,1]))" ∧
+       slot r "bits" = some (.int 8)) ∧
+    (let r := strTrip .binary [("alpha", .str "auto"), ("scale_axis", .list [.int 0, .int 1])]
+     text r = some "binary(alpha='auto',scale_axis=[0,1])" ∧
+       slot r "scale_axis" = some (.list [.int 0, .int 1])) := by
+  decide +kernel
+
+/-- array-valued (per-channel) options print as `str(numpy.ndarray)` — blanks, no commas — and
+    read back as the list of the same numbers: the scale of `quantized_linear`, the integer bits
+    of `quantized_bits` / `quantized_relu` (ndarray or tf.Variable, as QAdaptiveActivation stores
+    them).  A blank is the item separator here: removing the blanks of the text
+    (`"[1 2 0]"` → `"[120]"`) changes what it denotes. -/
+theorem C10_str_array_option_witness :
+    (let r := strTrip .quantized_linear
+        [("bits", .int 4), ("alpha", .list [.float (1 / 2), .float (1 / 4), .float 2])]
+     text r = some "quantized_linear(4,0,1,alpha=[0.5  0.25 2.  ])" ∧
+       slot r "alpha" = some (.list [.float (1 / 2), .float (1 / 4), .float 2])) ∧
+    (let r := strTrip .quantized_bits
+        [("integer", .list [.int 10, .int 2, .int 0]), ("symmetric", .int 1), ("alpha", .float 1)]
+     text r = some "quantized_bits(8,[10  2  0],1,alpha=1.0)" ∧
+       slot r "integer" = some (.list [.int 10, .int 2, .int 0])) ∧
+    (let r := strTrip .quantized_relu [("integer", .list [.int 1, .int 2, .int 0])]
+     text r = some "quantized_relu(8,[1 2 0])" ∧
+       slot r "integer" = some (.list [.int 1, .int 2, .int 0])) ∧
+    parseCall "quantized_relu(8,[1 2 0])".toList
+      = .ok ⟨"quantized_relu", [.int 8, .list [.int 1, .int 2, .int 0]], [], true⟩ ∧
+    parseCall ("quantized_relu(8,[1 2 0])".toList.filter (· != ' '))
+      = .ok ⟨"quantized_relu", [.int 8, .list [.int 120]], [], true⟩ := by
+  decide +kernel
+
 /-! ### kept: `qnoise_factor` is never printed (recorded finding, see notes/C10.md) -/
 
 /-- `qnoise_factor` is training-time state (a tensor under QAdaptiveActivation, a variable under
@@ -690,13 +826,37 @@ example :
       [("negative_slope", .float (1 / 4)), ("relu_upper_bound", .float (3 / 2)),
        ("use_ste", .bool false)] = true ∧
     roundTripHyps .quantized_bits [.int 4, .int 1]
-      [("alpha", .str "auto_po2"), ("scale_axis", .int 0),
+      [("alpha", .str "auto_po2"), ("scale_axis", .int 0), ("elements_per_scale", .int 2)] = true ∧
+    roundTripHyps .binary []
+      [("alpha", .str "auto_po2"), ("scale_axis", .list [.int 0, .int 1]),
        ("elements_per_scale", .list [.int 2, .int 2])] = true ∧
     roundTripHyps .bernoulli [] [("alpha", .str "auto"), ("temperature", .float (9 / 2))] = true ∧
     roundTripHyps .quantized_relu_po2 []
       [("max_value", .float (1 / 2)), ("use_stochastic_rounding", .bool true),
        ("log2_rounding", .str "floor")] = true ∧
     roundTripHyps .quantized_hswish [] [("alpha", .str "auto"), ("scale_axis", .int 0)] = true := by
+  decide +kernel
+
+/-- numpy-style lists are in the readable grammar (and not in the Python one) -/
+example :
+    (Lit.blist 0 [(.float false ['0'] ['5'] none, 2), (.float false ['0'] ['2', '5'] none, 1),
+      (.float false ['2'] [] none, 2)]).rd = true ∧
+    (Lit.blist 0 [(.float false ['0'] ['5'] none, 2), (.float false ['0'] ['2', '5'] none, 1),
+      (.float false ['2'] [] none, 2)]).text = "[0.5  0.25 2.  ]".toList ∧
+    (Lit.blist 1 [(.int false ['1'], 1), (.int true ['2'], 0)]).wf = false := by decide +kernel
+
+/-- per-channel options printed as `str(numpy.ndarray)` satisfy the round-trip hypotheses:
+    array-valued alpha of quantized_linear, per-channel integer bits of quantized_bits / relu -/
+example :
+    completeHyps .quantized_linear [.int 4]
+      [("alpha", .list [.float (1 / 2), .float (1 / 4), .float 2])] = true ∧
+    completeHyps .quantized_bits []
+      [("integer", .list [.int 10, .int 2, .int 0]), ("alpha", .float 1), ("symmetric", .int 1)] = true ∧
+    completeHyps .quantized_relu [] [("integer", .list [.int 1, .int 2, .int 0])] = true ∧
+    -- a one-channel array loses its brackets ("[3]" -> "3"): the text denotes the scalar
+    completeHyps .quantized_relu [] [("integer", .list [.int 3])] = false ∧
+    -- list-valued axes of quantized_bits: the tracked-list text is not a literal
+    completeHyps .quantized_bits [] [("alpha", .str "auto"), ("scale_axis", .list [.int 0, .int 1])] = false := by
   decide +kernel
 
 /-- the complete-option-set hypotheses hold at the cross-default points and for falsy-but-legal
